@@ -160,11 +160,13 @@ Proof.
   destruct r as [|y r'].
   - simpl in Hl. subst x. simpl. rewrite skip_pinf. reflexivity.
   - assert (Hl' : last (y :: r') fnan = pinf) by exact Hl.
+    assert (Hne' : y :: r' <> []) by congruence.
+    remember (y :: r') as rr. clear Heqrr Hl.
     simpl rb_loop. destruct (skip b x).
-    + apply IH; [congruence|exact Hl'].
+    + apply IH; assumption.
     + rewrite last_cons_ne.
-      * apply IH; [congruence|exact Hl'].
-      * destruct (rb_loop_cons (y :: r') x) as [t [E _]]. rewrite E. congruence.
+      * apply IH; assumption.
+      * destruct (rb_loop_cons rr x) as [t [E _]]. rewrite E. congruence.
 Qed.
 End Rebucket.
 
@@ -203,3 +205,486 @@ Proof.
   - constructor; [right; exact E|exact IH].
   - constructor; [left; reflexivity|constructor].
 Qed.
+
+Lemma sublist_trans {A} (a b c : list A) : sublist a b -> sublist b c -> sublist a c.
+Proof.
+  intros Hab Hbc. revert a Hab. induction Hbc; intros a0 Hab.
+  - inversion Hab; subst. constructor.
+  - inversion Hab; subst; constructor; auto.
+  - constructor. auto.
+Qed.
+
+(* ---------------- shape of the reduction under the runtime-shape precondition ---------------- *)
+Lemma shape_split ib : runtime_shape ib = true ->
+  strictly_inc ib = true /\ ib <> [] /\ last ib fnan = pinf /\ (2 <= length ib)%nat.
+Proof.
+  unfold runtime_shape. intros H. apply andb_prop in H. destruct H as [H H3].
+  apply andb_prop in H. destruct H as [H1 H2]. apply is_pinf_eq in H2.
+  apply Z.leb_le in H3. repeat split; auto; [|lia].
+  destruct ib; simpl in *; [lia|congruence].
+Qed.
+
+Section Reduce.
+Variables skip2 skip10 : f64 -> f64 -> bool.
+Hypothesis skip2_pinf : forall b, skip2 b pinf = false.
+Hypothesis skip10_pinf : forall b, skip10 b pinf = false.
+
+Lemma reduce_core skip f rest : (forall b, skip b pinf = false) -> is_fin f = true -> rest <> [] ->
+  last rest fnan = pinf ->
+  exists t, rb_loop skip f rest = f :: t /\ sublist t rest /\ t <> [] /\ last t fnan = pinf.
+Proof.
+  intros Hs Hf Hne Hl. destruct (rb_loop_cons skip rest f) as [t [E S]].
+  pose proof (rb_loop_last skip Hs rest f Hne Hl) as L. rewrite E in L.
+  assert (Ht : t <> []).
+  { intros ->. simpl in L. subst f. discriminate. }
+  exists t. repeat split; auto. rewrite last_cons_ne in L; assumption.
+Qed.
+
+Definition kept_bound (u : unit_t) (hb : list f64) : Prop :=
+  u = USeconds -> Forall (fun b => b = pinf \/ fle b fone = true) hb.
+
+Lemma reduce_shape u ib : runtime_shape ib = true -> survives u ib = true ->
+  exists pre f rest hb',
+    first_finite ib = Some f /\
+    ib = pre ++ f :: rest /\ (pre = [] \/ pre = [ninf]) /\ is_fin f = true /\ rest <> [] /\
+    last rest fnan = pinf /\
+    buckets_for_unit_gen skip2 skip10 u ib = Some (pre ++ f :: hb') /\
+    strip_ninf (pre ++ f :: hb') = Some (f :: hb') /\
+    sublist hb' rest /\ hb' <> [] /\ last hb' fnan = pinf /\ kept_bound u (f :: hb').
+Proof.
+  intros Hshape Hsurv. destruct (shape_split ib Hshape) as [Hinc [Hne [Hlast Hlen]]].
+  unfold survives in Hsurv. destruct (first_finite ib) as [f|] eqn:Hff; [|discriminate].
+  assert (Hsec : u = USeconds -> fle f fone = true).
+  { intros ->. exact Hsurv. }
+  clear Hsurv.
+  (* the decomposition of ib *)
+  assert (Hdec : exists pre rest, ib = pre ++ f :: rest /\ (pre = [] \/ pre = [ninf]) /\ is_fin f = true).
+  { destruct ib as [|b0 r]; [discriminate|]. simpl in Hff. destruct (is_ninf b0) eqn:Hn.
+    - destruct r as [|b1 r1]; [discriminate|]. destruct (is_fin b1) eqn:Hb1; [|discriminate].
+      inversion Hff; subst b1. apply is_ninf_eq in Hn. subst b0.
+      exists [ninf], r1. repeat split; auto.
+    - destruct (is_fin b0) eqn:Hb0; [|discriminate]. inversion Hff; subst b0.
+      exists [], r. repeat split; auto. }
+  destruct Hdec as [pre [rest [Hib [Hpre Hfin]]]].
+  assert (Hrest : rest <> [] /\ last rest fnan = pinf).
+  { subst ib. destruct rest as [|y r'].
+    - exfalso. assert (last (pre ++ [f]) fnan = f) by (destruct Hpre as [-> | ->]; reflexivity).
+      rewrite H in Hlast. subst f. discriminate.
+    - split; [congruence|]. rewrite <- Hlast. destruct Hpre as [-> | ->]; reflexivity. }
+  destruct Hrest as [Hrne Hrl].
+  assert (Hstrip : forall hb', strip_ninf (pre ++ f :: hb') = Some (f :: hb')).
+  { intros hb'. destruct Hpre as [-> | ->]; simpl.
+    - rewrite feq_ninf, (fin_not_ninf f Hfin). reflexivity.
+    - reflexivity. }
+  assert (Hre : forall skip, (forall b, skip b pinf = false) ->
+            exists t, re_bucket_exp skip ib = Some (pre ++ f :: t) /\ sublist t rest /\ t <> [] /\ last t fnan = pinf).
+  { intros skip Hs. destruct (reduce_core skip f rest Hs Hfin Hrne Hrl) as [t [E [S [Ht Lt]]]].
+    exists t. repeat split; auto. subst ib. destruct Hpre as [-> | ->]; simpl.
+    - rewrite feq_ninf, (fin_not_ninf f Hfin). rewrite E. reflexivity.
+    - rewrite E. reflexivity. }
+  exists pre, f, rest.
+  destruct u.
+  - (* bytes *)
+    destruct (Hre skip2 skip2_pinf) as [t [E [S [Ht Lt]]]].
+    exists t. split; [reflexivity|]. repeat split; auto. intros H; discriminate.
+  - (* seconds *)
+    destruct (Hre skip10 skip10_pinf) as [t [E [S [Ht Lt]]]].
+    exists (seconds_cut t). simpl. rewrite E. simpl.
+    assert (Hcut : seconds_cut (pre ++ f :: t) = pre ++ f :: seconds_cut t).
+    { destruct Hpre as [-> | ->]; simpl.
+      - rewrite (Hsec eq_refl). reflexivity.
+      - rewrite (Hsec eq_refl). reflexivity. }
+    rewrite Hcut. split; [reflexivity|]. repeat split; auto.
+    + eapply sublist_trans; [apply seconds_cut_sublist; assumption|exact S].
+    + apply seconds_cut_nonempty; assumption.
+    + apply seconds_cut_last; assumption.
+    + intros _. constructor; [right; apply Hsec; reflexivity|apply seconds_cut_bound].
+  - (* any other unit: unchanged *)
+    exists rest. simpl. split; [reflexivity|]. repeat split; auto.
+    + f_equal. exact Hib.
+    + apply sublist_refl.
+    + intros H; discriminate.
+Qed.
+End Reduce.
+
+(* ---------------- update: the loop on tails instead of indices ---------------- *)
+Fixpoint uloop (cs : list Z) (ibt hbt : list f64) (hc : list Z) (j : nat) : option (list Z) :=
+  match cs with
+  | [] => Some hc
+  | c :: cs' =>
+      match nth_error hc j, ibt, hbt with
+      | Some old, bi :: ibt', hj :: hbt' =>
+          if feq bi hj then uloop cs' ibt' hbt' (set_nth hc j (wrap64 (old + c))) (S j)
+          else uloop cs' ibt' hbt (set_nth hc j (wrap64 (old + c))) j
+      | _, _, _ => None
+      end
+  end.
+
+Lemma nth_error_skipn {A} (l : list A) n : nth_error l n = hd_error (skipn n l).
+Proof. revert l. induction n; intros [|x r]; simpl; auto. Qed.
+
+Lemma skipn_S_tl {A} (l : list A) n : skipn (S n) l = tl (skipn n l).
+Proof.
+  revert l. induction n; intros [|x r]; try reflexivity.
+  change (skipn (S (S n)) (x :: r)) with (skipn (S n) r). rewrite IHn. reflexivity.
+Qed.
+
+Lemma update_loop_uloop : forall cs i ib hb hc j,
+  update_loop cs i ib hb hc j = uloop cs (skipn (S i) ib) (skipn (S j) hb) hc j.
+Proof.
+  induction cs as [|c cs IH]; intros i ib hb hc j; [reflexivity|].
+  cbn [update_loop uloop].
+  rewrite (nth_error_skipn ib (S i)), (nth_error_skipn hb (S j)).
+  destruct (nth_error hc j) as [old|]; [|reflexivity].
+  destruct (skipn (S i) ib) as [|bi ibt'] eqn:Ei; [reflexivity|].
+  destruct (skipn (S j) hb) as [|hj hbt'] eqn:Ej; [reflexivity|].
+  cbn [hd_error].
+  assert (Ei' : skipn (S (S i)) ib = ibt') by (rewrite skipn_S_tl, Ei; reflexivity).
+  assert (Ej' : skipn (S (S j)) hb = hbt') by (rewrite skipn_S_tl, Ej; reflexivity).
+  destruct (feq bi hj); rewrite IH, Ei'; [rewrite Ej'|rewrite Ej]; reflexivity.
+Qed.
+
+(* hbt embeds into ibt and both end together *)
+Inductive emb : list f64 -> list f64 -> Prop :=
+| emb_nil : emb [] []
+| emb_keep : forall x h i, emb h i -> emb (x :: h) (x :: i)
+| emb_skip : forall x h i, emb h i -> h <> [] -> emb h (x :: i).
+
+Lemma emb_in h i : emb h i -> forall y, In y h -> In y i.
+Proof. induction 1; intros z Hz; simpl in *; auto. destruct Hz; auto. Qed.
+
+Lemma emb_nonempty h i : emb h i -> i <> [] -> h <> [].
+Proof. destruct 1; intros; congruence. Qed.
+
+Lemma emb_length h i : emb h i -> (length h <= length i)%nat.
+Proof. induction 1; simpl; lia. Qed.
+
+Lemma sublist_emb h i : SS i -> sublist h i -> h <> [] -> last h fnan = last i fnan -> emb h i.
+Proof.
+  intros Hs Hsub. revert Hs. induction Hsub as [l|x a b Hsub IH|y a b Hsub IH]; intros Hs Hne Hl.
+  - congruence.
+  - destruct a as [|a0 a'].
+    + destruct b as [|b0 b'].
+      * repeat constructor.
+      * exfalso. simpl last in Hl at 1. rewrite last_cons_ne in Hl by congruence.
+        pose proof (SS_head_lt _ _ Hs) as Hf. rewrite Forall_forall in Hf.
+        assert (Hin : In (last (b0 :: b') fnan) (b0 :: b')) by (apply last_in; congruence).
+        apply Hf in Hin. rewrite <- Hl in Hin. rewrite flt_irrefl in Hin. discriminate.
+    + assert (Hb : b <> []) by (eapply sublist_nonempty; [exact Hsub|congruence]).
+      constructor. apply IH; [eapply SS_tail; eauto|congruence|].
+      rewrite (last_cons_ne x (a0 :: a')) in Hl by congruence.
+      rewrite (last_cons_ne x b) in Hl by exact Hb. exact Hl.
+  - assert (Hb : b <> []) by (eapply sublist_nonempty; eauto).
+    constructor; [|exact Hne]. apply IH; [eapply SS_tail; eauto|exact Hne|].
+    rewrite (last_cons_ne y b) in Hl by exact Hb. exact Hl.
+Qed.
+
+(* ---- arithmetic modulo 2^64 ---- *)
+Definition eqm (a b : Z) : Prop := a mod M64 = b mod M64.
+
+Lemma M64_pos : 0 < M64. Proof. reflexivity. Qed.
+
+Lemma eqm_refl a : eqm a a. Proof. reflexivity. Qed.
+Lemma eqm_trans a b c : eqm a b -> eqm b c -> eqm a c. Proof. unfold eqm; congruence. Qed.
+Lemma eqm_add_r a b x : eqm a b -> eqm (a + x) (b + x).
+Proof. unfold eqm. intros H. rewrite (Z.add_mod a), (Z.add_mod b), H by (compute; congruence). reflexivity. Qed.
+
+Lemma eqm_step a old c : eqm (a - old + wrap64 (old + c)) (a + c).
+Proof.
+  unfold eqm, wrap64. rewrite Zplus_mod_idemp_r. f_equal. ring.
+Qed.
+
+Lemma wrap64_eqm a b : eqm a b -> wrap64 a = wrap64 b. Proof. auto. Qed.
+Lemma wrap64_idem a : wrap64 (wrap64 a) = wrap64 a.
+Proof. unfold wrap64. apply Z.mod_mod. compute; congruence. Qed.
+Lemma wrap64_add_l a b : wrap64 (wrap64 a + b) = wrap64 (a + b).
+Proof. unfold wrap64. apply Zplus_mod_idemp_l. Qed.
+
+(* ---- prefix sums ---- *)
+Definition psum (n : nat) (l : list Z) : Z := sumZ (firstn n l).
+
+Lemma length_set_nth l j v : length (set_nth l j v) = length l.
+Proof. revert j. induction l; intros [|j]; simpl; auto. Qed.
+
+Lemma firstn_set_nth l j v n : (n <= j)%nat -> firstn n (set_nth l j v) = firstn n l.
+Proof.
+  revert j n. induction l as [|x r IH]; intros [|j] [|n] H; simpl; auto; try lia.
+  f_equal. apply IH. lia.
+Qed.
+
+Lemma psum_set_nth l j v n old : nth_error l j = Some old -> (j < n)%nat ->
+  psum n (set_nth l j v) = psum n l - old + v.
+Proof.
+  unfold psum. revert j n. induction l as [|x r IH]; intros [|j] [|n] H Hn; simpl in *; try discriminate; try lia.
+  - inversion H; subst. lia.
+  - rewrite (IH j n H) by lia. lia.
+Qed.
+
+Lemma sumZ_set_nth l j v old : nth_error l j = Some old -> sumZ (set_nth l j v) = sumZ l - old + v.
+Proof.
+  revert j. induction l as [|x r IH]; intros [|j] H; simpl in *; try discriminate.
+  - inversion H; subst. lia.
+  - rewrite (IH j H). lia.
+Qed.
+
+Lemma firstn_firstn_le {A} (l l' : list A) n m : (m <= n)%nat -> firstn n l = firstn n l' -> firstn m l = firstn m l'.
+Proof.
+  intros Hm H. replace m with (Nat.min m n) by lia. rewrite <- !firstn_firstn. rewrite H. reflexivity.
+Qed.
+
+Lemma count_below_none test cs ibt : Forall (fun hi => test hi = false) ibt -> count_below test cs ibt = 0.
+Proof.
+  intros H. revert cs. induction H as [|x r Hx Hr IH]; intros [|c cs]; simpl; auto.
+  rewrite Hx, IH. reflexivity.
+Qed.
+
+Lemma uloop_spec : forall cs ibt hbt hc j,
+  SS ibt -> Forall (fun x => is_nan x = false) ibt -> emb hbt ibt ->
+  length cs = length ibt -> length hc = (j + length hbt)%nat ->
+  exists hc', uloop cs ibt hbt hc j = Some hc' /\ length hc' = length hc /\
+    firstn j hc' = firstn j hc /\
+    eqm (sumZ hc') (sumZ hc + sumZ cs) /\
+    (forall p y, nth_error hbt p = Some y ->
+       eqm (psum (S (j + p)) hc') (psum (S (j + p)) hc + count_below (fun hi => fle hi y) cs ibt)).
+Proof.
+  induction cs as [|c cs IH]; intros ibt hbt hc j Hs Hnn Hemb Hlc Hlh.
+  - destruct ibt; [|discriminate]. inversion Hemb; subst.
+    exists hc. simpl. repeat split; auto.
+    + unfold eqm. f_equal. lia.
+    + intros p y Hp. destruct p; discriminate.
+  - destruct ibt as [|bi ibt']; [discriminate|].
+    assert (Hhne : hbt <> []) by (eapply emb_nonempty; [exact Hemb|congruence]).
+    destruct hbt as [|hj hbt']; [congruence|].
+    destruct (nth_error hc j) as [old|] eqn:Hold.
+    2:{ apply nth_error_None in Hold. simpl in Hlh. lia. }
+    set (hc1 := set_nth hc j (wrap64 (old + c))).
+    assert (Hl1 : length hc1 = length hc) by apply length_set_nth.
+    pose proof (SS_head_lt _ _ Hs) as Hlt. pose proof (SS_tail _ _ Hs) as Hs'.
+    inversion Hnn as [|? ? Hbi Hnn']; subst.
+    assert (Hsum1 : eqm (sumZ hc1 + sumZ cs) (sumZ hc + sumZ (c :: cs))).
+    { assert (E : sumZ hc1 = sumZ hc - old + wrap64 (old + c)).
+      { apply sumZ_set_nth. exact Hold. }
+      rewrite E. simpl sumZ. replace (sumZ hc + (c + sumZ cs)) with (sumZ hc + c + sumZ cs) by ring.
+      apply eqm_add_r. apply eqm_step. }
+    cbn [uloop]. rewrite Hold. fold hc1.
+    inversion Hemb as [|x h i Hemb'|x h i Hemb' Hne']; subst.
+    + (* the boundary is kept: j advances *)
+      rewrite (feq_refl bi Hbi).
+      destruct (IH ibt' hbt' hc1 (S j) Hs' Hnn' Hemb') as [hc' [E [L [F [Sm C]]]]].
+      { simpl in Hlc. lia. } { rewrite Hl1. simpl in Hlh. lia. }
+      exists hc'. split; [exact E|]. split; [congruence|]. split.
+      { apply (firstn_firstn_le _ _ (S j) j) in F; [|lia]. rewrite F. apply firstn_set_nth. lia. }
+      split; [eapply eqm_trans; [exact Sm|exact Hsum1]|].
+      intros p y Hp.
+      assert (Hall : forall z, In z hbt' -> flt bi z = true).
+      { intros z Hz. rewrite Forall_forall in Hlt. apply Hlt. eapply emb_in; eauto. }
+      destruct p as [|p].
+      * simpl in Hp. inversion Hp; subst y. rewrite Nat.add_0_r.
+        unfold psum at 1. rewrite F. fold (psum (S j) hc1).
+        unfold hc1. rewrite (psum_set_nth hc j _ (S j) old Hold) by lia.
+        cbn [count_below]. rewrite (fle_refl bi Hbi).
+        rewrite count_below_none.
+        2:{ rewrite Forall_forall in *. intros z Hz. apply flt_not_fle. apply Hlt. exact Hz. }
+        rewrite Z.add_0_r. apply eqm_step.
+      * simpl in Hp. specialize (C p y Hp).
+        replace (S (j + S p)) with (S (S j + p)) by lia.
+        eapply eqm_trans; [exact C|].
+        unfold hc1. rewrite (psum_set_nth hc j _ (S (S j + p)) old Hold) by lia.
+        cbn [count_below].
+        assert (Hy : fle bi y = true). { apply flt_fle. apply Hall. eapply nth_error_In; eauto. }
+        rewrite Hy.
+        replace (psum (S (S j + p)) hc + (c + count_below (fun hi => fle hi y) cs ibt'))
+          with (psum (S (S j + p)) hc + c + count_below (fun hi => fle hi y) cs ibt') by ring.
+        apply eqm_add_r. apply eqm_step.
+    + (* the boundary is skipped: j stays *)
+      assert (Hall : forall z, In z (hj :: hbt') -> flt bi z = true).
+      { intros z Hz. rewrite Forall_forall in Hlt. apply Hlt. eapply emb_in; eauto. }
+      rewrite (flt_feq_false bi hj) by (apply Hall; left; reflexivity).
+      destruct (IH ibt' (hj :: hbt') hc1 j Hs' Hnn' Hemb') as [hc' [E [L [F [Sm C]]]]].
+      { simpl in Hlc. lia. } { rewrite Hl1. exact Hlh. }
+      exists hc'. split; [exact E|]. split; [congruence|]. split.
+      { rewrite F. apply firstn_set_nth. lia. }
+      split; [eapply eqm_trans; [exact Sm|exact Hsum1]|].
+      intros p y Hp. specialize (C p y Hp).
+      eapply eqm_trans; [exact C|].
+      unfold hc1. rewrite (psum_set_nth hc j _ (S (j + p)) old Hold) by lia.
+      cbn [count_below].
+      assert (Hy : fle bi y = true). { apply flt_fle. apply Hall. eapply nth_error_In; eauto. }
+      rewrite Hy.
+      replace (psum (S (j + p)) hc + (c + count_below (fun hi => fle hi y) cs ibt'))
+        with (psum (S (j + p)) hc + c + count_below (fun hi => fle hi y) cs ibt') by ring.
+      apply eqm_add_r. apply eqm_step.
+Qed.
+
+(* ---------------- Write: the loop on tails ---------------- *)
+Fixpoint wloop (hbt : list f64) (hs : bool) (cs : list Z) (total : Z) (sum : f64) (acc : list (f64 * Z))
+  {struct cs} : option wout :=
+  match cs with
+  | [] => Some (mkW total sum (rev acc))
+  | c :: cs' =>
+      let total' := wrap64 (total + c) in
+      match hbt with
+      | bi :: ((bi1 :: _) as hbt') =>
+          let sum' := if negb hs && negb (Z.eqb c 0) then fadd sum (fmul bi (of_Z c)) else sum in
+          if is_pinf bi1 then Some (mkW total' sum' (rev acc))
+          else wloop hbt' hs cs' total' sum' ((nextafter bi1 bi, total') :: acc)
+      | _ => None
+      end
+  end.
+
+Lemma write_loop_wloop : forall cs hb hs i total sum acc,
+  write_loop hb hs cs i total sum acc = wloop (skipn i hb) hs cs total sum acc.
+Proof.
+  induction cs as [|c cs IH]; intros hb hs i total sum acc; [reflexivity|].
+  cbn [write_loop wloop]. rewrite (nth_error_skipn hb i), (nth_error_skipn hb (S i)), skipn_S_tl.
+  destruct (skipn i hb) as [|bi t] eqn:E; [reflexivity|].
+  cbn [hd_error tl]. destruct t as [|bi1 t']; [reflexivity|]. cbn [hd_error].
+  destruct (is_pinf bi1); [reflexivity|].
+  rewrite IH, skipn_S_tl, E. reflexivity.
+Qed.
+
+Definition exposed_ok (hbt : list f64) (cs : list Z) (total : Z) (p : f64 * Z) : Prop :=
+  exists k y0 y1, nth_error hbt k = Some y0 /\ nth_error hbt (S k) = Some y1 /\ is_pinf y1 = false /\
+    fst p = nextafter y1 y0 /\ snd p = wrap64 (total + psum (S k) cs).
+
+Lemma wloop_spec hs : forall cs hbt total sum acc,
+  SS hbt -> last hbt fnan = pinf -> length hbt = S (length cs) -> wrap64 total = total ->
+  exists w new, wloop hbt hs cs total sum acc = Some w /\
+    w_count w = wrap64 (total + sumZ cs) /\
+    w_buckets w = rev acc ++ new /\ length new = pred (length cs) /\
+    Forall (exposed_ok hbt cs total) new.
+Proof.
+  induction cs as [|c cs IH]; intros hbt total sum acc Hs Hl Hlen Ht.
+  - exists (mkW total sum (rev acc)), []. simpl. rewrite Z.add_0_r, app_nil_r. repeat split; auto.
+  - destruct hbt as [|bi [|bi1 rest]]; try (simpl in Hlen; lia).
+    cbn [wloop]. destruct (is_pinf bi1) eqn:Hp.
+    + apply is_pinf_eq in Hp. assert (rest = []) by (eapply SS_pinf_last; [eapply SS_tail; exact Hs|exact Hp]).
+      subst rest. assert (cs = []) by (destruct cs; [reflexivity|simpl in Hlen; lia]). subst cs.
+      eexists. exists []. split; [reflexivity|]. simpl. rewrite Z.add_0_r, app_nil_r. repeat split; auto.
+    + assert (Hcs : cs <> []).
+      { intros ->. destruct rest; [|simpl in Hlen; lia]. simpl in Hl. subst bi1. discriminate. }
+      destruct (IH (bi1 :: rest) (wrap64 (total + c))
+                  (if negb hs && negb (c =? 0) then fadd sum (fmul bi (of_Z c)) else sum)
+                  ((nextafter bi1 bi, wrap64 (total + c)) :: acc))
+        as [w [new [E [Cn [Bk [Ln Fa]]]]]].
+      { eapply SS_tail; exact Hs. } { rewrite <- Hl. symmetry. apply last_cons_ne. congruence. }
+      { simpl in *. lia. } { apply wrap64_idem. }
+      exists w, ((nextafter bi1 bi, wrap64 (total + c)) :: new). split; [exact E|].
+      split. { rewrite Cn, wrap64_add_l. f_equal. simpl. ring. }
+      split. { rewrite Bk. simpl. rewrite <- app_assoc. reflexivity. }
+      split. { simpl. rewrite Ln. destruct cs; [congruence|reflexivity]. }
+      constructor.
+      * exists 0%nat, bi, bi1. repeat split; auto. simpl. f_equal. unfold psum. simpl. ring.
+      * eapply Forall_impl; [|exact Fa]. intros p [k [y0 [y1 [H0 [H1 [H2 [H3 H4]]]]]]].
+        exists (S k), y0, y1. repeat split; auto.
+        rewrite H4, wrap64_add_l. f_equal. unfold psum. simpl. ring.
+Qed.
+
+(* ---------------- one update followed by Write ---------------- *)
+Lemma SS_nonnan : forall l x, SS (x :: l) -> l <> [] -> Forall (fun y => is_nan y = false) (x :: l).
+Proof.
+  induction l as [|y r IH]; intros x Hs Hne; [congruence|].
+  pose proof (SS_head_lt _ _ Hs) as Hlt. inversion Hlt as [|? ? Hxy _]; subst.
+  apply flt_nonnan in Hxy. destruct Hxy as [Hx Hy]. constructor; [exact Hx|].
+  destruct r as [|z r'].
+  - constructor; [exact Hy|constructor].
+  - apply IH; [eapply SS_tail; exact Hs|congruence].
+Qed.
+
+Lemma SS_nth_lt : forall k l a b, SS l -> nth_error l k = Some a -> nth_error l (S k) = Some b -> flt a b = true.
+Proof.
+  induction k; intros l a b Hs Ha Hb.
+  - destruct l as [|x [|y r]]; simpl in *; try discriminate. inversion Ha; inversion Hb; subst.
+    apply SS_head_lt in Hs. inversion Hs; assumption.
+  - destruct l as [|x r]; [discriminate|]. simpl in Ha, Hb. eapply IHk; [eapply SS_tail; exact Hs|exact Ha|exact Hb].
+Qed.
+
+Lemma sumZ_repeat0 n : sumZ (repeat 0 n) = 0.
+Proof. induction n; simpl; lia. Qed.
+Lemma psum_repeat0 k n : psum k (repeat 0 n) = 0.
+Proof. unfold psum. revert k. induction n; intros [|k]; simpl; auto. Qed.
+
+(* what one exposed Write must look like (ib: runtime boundaries, hb: the reduced ones, cs: runtime counts) *)
+Definition bucket_good (ib hb : list f64) (cs : list Z) (p : f64 * Z) : Prop :=
+  exists B prev, In B hb /\ is_pinf B = false /\ flt prev B = true /\ fst p = nextafter B prev /\
+    snd p = wrap64 (count_below (fun hi => fle hi B) cs (tl ib)).
+
+Definition write_good (ib hb : list f64) (cs : list Z) (w : wout) : Prop :=
+  w_count w = wrap64 (sumZ cs) /\ S (S (length (w_buckets w))) = length hb /\
+  Forall (bucket_good ib hb cs) (w_buckets w).
+
+Section OneUpdate.
+Variables (pre rest hb' : list f64) (f : f64).
+Let ib := pre ++ f :: rest.
+Hypothesis Hinc : SS ib.
+Hypothesis Hpre : pre = [] \/ pre = [ninf].
+Hypothesis Hfin : is_fin f = true.
+Hypothesis Hrne : rest <> [].
+Hypothesis Hrl : last rest fnan = pinf.
+Hypothesis Hsub : sublist hb' rest.
+Hypothesis Hhne : hb' <> [].
+Hypothesis Hhl : last hb' fnan = pinf.
+
+Lemma SS_f_rest : SS (f :: rest).
+Proof. unfold ib in Hinc. eapply SS_app_r. exact Hinc. Qed.
+
+Lemma SS_hb : SS (f :: hb').
+Proof. eapply SS_sublist; [|exact SS_f_rest]. constructor. exact Hsub. Qed.
+
+Lemma emb_tl : emb hb' (tl ib).
+Proof.
+  assert (E : emb hb' rest).
+  { apply sublist_emb; auto. eapply SS_tail; exact SS_f_rest. congruence. }
+  unfold ib. destruct Hpre as [-> | ->]; simpl; [exact E|]. constructor; assumption.
+Qed.
+
+Lemma nonnan_tl : Forall (fun x => is_nan x = false) (tl ib).
+Proof.
+  assert (N : Forall (fun x => is_nan x = false) (f :: rest)) by (apply SS_nonnan; [exact SS_f_rest|exact Hrne]).
+  unfold ib. destruct Hpre as [-> | ->]; simpl; [inversion N; assumption|exact N].
+Qed.
+
+Lemma SS_tl : SS (tl ib).
+Proof. unfold ib in *. destruct Hpre as [-> | ->]; simpl in *; [eapply SS_tail; exact Hinc|eapply SS_tail; exact Hinc]. Qed.
+
+Lemma update_write_spec h cs s :
+  bh_buckets h = f :: hb' -> length (bh_counts h) = length hb' -> S (length cs) = length ib ->
+  exists h' w, update h cs ib s = Some h' /\ bh_buckets h' = f :: hb' /\ length (bh_counts h') = length hb' /\
+    write h' = Some w /\ write_good ib (f :: hb') cs w.
+Proof.
+  intros Hb Hc Hlen. unfold update. rewrite update_loop_uloop, Hb, Hc.
+  change (skipn 1 (f :: hb')) with hb'. replace (skipn 1 ib) with (tl ib) by (destruct ib; reflexivity).
+  destruct (uloop_spec cs (tl ib) hb' (repeat 0 (length hb')) 0 SS_tl nonnan_tl emb_tl)
+    as [hc' [E [L [_ [Sm C]]]]].
+  { destruct ib; simpl in *; lia. } { rewrite repeat_length. reflexivity. }
+  rewrite E. eexists. eexists. split; [reflexivity|]. cbn [bh_buckets bh_counts bh_has_sum bh_sum].
+  split; [reflexivity|]. rewrite repeat_length in L. split; [exact L|].
+  unfold write. cbn [bh_buckets bh_counts bh_has_sum bh_sum]. rewrite write_loop_wloop. cbn [skipn].
+  match goal with |- context [wloop _ ?hs _ _ ?sm _] =>
+    destruct (wloop_spec hs hc' (f :: hb') 0 sm [] SS_hb) as [w [new [Ew [Cn [Bk [Ln Fa]]]]]] end.
+  { rewrite last_cons_ne by exact Hhne. exact Hhl. } { simpl. lia. } { reflexivity. }
+  exists w. split; [exact Ew|]. simpl in Bk. split; [|split].
+  - rewrite Cn. apply wrap64_eqm. rewrite Z.add_0_l. rewrite sumZ_repeat0 in Sm. exact Sm.
+  - rewrite Bk, Ln, L. simpl. destruct hb'; [congruence|reflexivity].
+  - rewrite Bk. eapply Forall_impl; [|exact Fa]. intros p [k [y0 [y1 [H0 [H1 [H2 [H3 H4]]]]]]].
+    exists y1, y0. simpl in H1. repeat split; auto.
+    + right. eapply nth_error_In; exact H1.
+    + eapply SS_nth_lt; [exact SS_hb|exact H0|exact H1].
+    + rewrite H4. apply wrap64_eqm. rewrite Z.add_0_l.
+      specialize (C k y1 H1). simpl in C. rewrite psum_repeat0 in C. exact C.
+Qed.
+
+Lemma run_updates_spec : forall ups h,
+  bh_buckets h = f :: hb' -> length (bh_counts h) = length hb' ->
+  Forall (fun up => S (length (fst up)) = length ib) ups ->
+  exists ws, run_updates h ib ups = Some ws /\ Forall2 (fun up w => write_good ib (f :: hb') (fst up) w) ups ws.
+Proof.
+  induction ups as [|[cs s] ups IH]; intros h Hb Hc Hall.
+  - exists []. split; [reflexivity|constructor].
+  - inversion Hall as [|? ? H1 H2]; subst. simpl in H1.
+    destruct (update_write_spec h cs s Hb Hc H1) as [h' [w [Eu [Hb' [Hc' [Ew G]]]]]].
+    destruct (IH h' Hb' Hc' H2) as [ws [Er Gs]].
+    exists (w :: ws). cbn [run_updates]. rewrite Eu, Ew, Er. split; [reflexivity|].
+    constructor; [exact G|exact Gs].
+Qed.
+End OneUpdate.
